@@ -49,7 +49,7 @@ def main (args : List String) : IO UInt32 := do
   | ["C12"] => loopState stdin stdout C12.step C12.init; return 0
   | ["C13"] => loopState stdin stdout C12.step C12.init; return 0
   | ["C09"] => loop stdin stdout C09.step; return 0
-  | ["C10"] => loopState stdin stdout C10.step []; return 0
+  | ["C10"] => loopState stdin stdout C10.step {}; return 0
   | ["C14"] => loopState stdin stdout C14.step {}; return 0
   | ["C19"] => loopState stdin stdout C19.step C19.St.init; return 0
   | ["C18"] => loopState stdin stdout C18.step C18.St.init; return 0
